@@ -28,7 +28,9 @@ EXTENDS Integers, Sequences, FiniteSets, TLC
 CONSTANTS
   NObj,      \* number of object identities (ids are never reused)
   Ops,       \* set of names of the public calls enabled in this configuration
-  Caps,      \* record of bounds: [strong, stored, rec, weak, storedW]
+  Caps,      \* record of bounds: [strong, stored, rec, weak, storedW] and of scope switches:
+             \*   over  = TRUE allows adopt to record more than the owner holds,
+             \*   elide = TRUE allows removing a recorded handle without unadopt
   Variant,   \* record: [bust |-> "out"|"owned", loop |-> "split"|"merged"|"ignored",
              \*          consume |-> "ignore"|"purge"]
   DtorMenu   \* set of destructor scripts New may attach to a value
@@ -150,43 +152,41 @@ HeldOutside(g, x, D, m) ==
 RecCount(g, n, m) == g.rec[n][m]
 
 \* objects reachable from the program's handles through stored handles
-RECURSIVE ReachFrom(_, _, _)
-ReachFrom(g, x, R) ==
-  LET nxt == {m \in Obj : \E a \in R : a \in LiveIn(g, x) /\ g.valS[a][m] > 0} \cup
-             {m \in Obj : \E a \in Obj : g.det[a][m] > 0}
-  IN IF nxt \subseteq R THEN R ELSE ReachFrom(g, x, R \cup nxt)
-Reach == ReachFrom(led, ob, {o \in Obj : led.rootS[o] > 0 \/ led.raw[o] > 0}
-                            \cup {m \in Obj : \E a \in Obj : led.det[a][m] > 0})
+ReachIn(g, x) ==
+  LET L     == LiveIn(g, x)              \* objects whose value still holds its handles
+      roots == {o \in Obj : g.rootS[o] > 0 \/ g.raw[o] > 0} \cup {m \in Obj : \E a \in Obj : g.det[a][m] > 0}
+      edge  == [a \in Obj |-> IF a \in L THEN {m \in Obj : g.valS[a][m] > 0} ELSE {}]
+      F[k \in 0..NObj] == IF k = 0 THEN roots
+                           ELSE LET p == F[k - 1] IN p \cup UNION {edge[a] : a \in p}
+  IN F[NObj]
+Reach == ReachIn(led, ob)
 
 StaleIn(g, x) == \E a \in LiveIn(g, x), b \in Obj : RecCount(g, a, b) > g.valS[a][b]
 
 \* handles the harness can name in a call: root handles and handles stored in intact values
 AccS(o) == led.rootS[o] + SumObj([a \in Obj |-> IF Intact(a) /\ ob.nd[a] = 0 THEN led.valS[a][o] ELSE 0])
 
-(* ---- C03 oracle: what the drop of a handle to x0 obliges the library to destroy ---- *)
+(* ---- C03 oracle: what the drop of ONE handle to X obliges the library to destroy ---- *)
+(* Evaluated at every handle drop (public, scripted, or performed by the destruction of  *)
+(* a value that held the handle), on the ledger as it is right after that handle ceased   *)
+(* to exist.  Handles still held by values whose destruction is in progress count: they   *)
+(* exist until they are dropped in their turn.  This is the statement of C03 read         *)
+(* literally; in particular a cycle whose acyclic tail is dropped last is NOT demanded    *)
+(* (the set reachable from the tail through recorded adoptions does not own the tail).    *)
 
-RECURSIVE RecClosure(_, _, _, _)
-RecClosure(g, x, D, S) ==
-  LET nxt == {m \in LiveIn(g, x) \ D : \E n \in S : RecCount(g, n, m) > 0}
-  IN IF nxt \subseteq S THEN S ELSE RecClosure(g, x, D, S \cup nxt)
+RECURSIVE RecClosure(_, _, _)
+RecClosure(g, x, S) ==
+  LET nxt == {m \in LiveIn(g, x) : \E n \in S : RecCount(g, n, m) > 0}
+  IN IF nxt \subseteq S THEN S ELSE RecClosure(g, x, S \cup nxt)
 
-Rule1(g, x, D, X) ==
-  LET S == RecClosure(g, x, D, {X})
-  IN IF \A m \in S : HeldOutside(g, x, D, m)
-                     = SumSet([n \in Obj |-> RecCount(g, n, m)], S)
-     THEN S ELSE {}
+Demand(g, x, X) ==
+  IF g.stale \/ X \notin LiveIn(g, x) THEN {}
+  ELSE IF HandlesIn(g, X) = 0 THEN {X}
+  ELSE LET S == RecClosure(g, x, {X})
+       IN IF \A m \in S : HandlesIn(g, m) = SumSet([n \in Obj |-> RecCount(g, n, m)], S)
+          THEN S ELSE {}
 
-RECURSIVE Garbage(_, _, _, _)
-Garbage(g, x, D, P) ==
-  LET Q == P \ D IN
-  IF Q = {} THEN D
-  ELSE LET m  == CHOOSE m \in Q : TRUE
-           S  == IF HeldOutside(g, x, D, m) = 0 THEN {m} ELSE Rule1(g, x, D, m)
-           tg == {t \in LiveIn(g, x) : \E n \in S : g.valS[n][t] > 0}
-       IN IF S = {} THEN Garbage(g, x, D, Q \ {m})
-          ELSE Garbage(g, x, D \cup S, (Q \ {m}) \cup tg)
-
-MustDie(g, x, x0) == IF g.stale \/ x0 \notin LiveIn(g, x) THEN {} ELSE Garbage(g, x, {}, {x0})
+MustDie(g, x, x0) == Demand(g, x, x0)
 
 -----------------------------------------------------------------------------
 (* State-update plumbing *)
@@ -324,10 +324,12 @@ OpStore(a, o, top, base) ==        \* move a root handle of o into a's value: no
 
 OpTake(a, o, top, base) ==         \* move a handle out of a's value: no library call
   /\ Intact(a) /\ ob.nd[a] = 0 /\ led.valS[a][o] > 0
+  /\ Caps.elide \/ led.rec[a][o] < led.valS[a][o]
   /\ Done(heap, "Take", a, o, NoScript, "ok", top, base)
 
 OpDropStored(a, o, top, base) ==
   /\ Intact(a) /\ ob.nd[a] = 0 /\ led.valS[a][o] > 0
+  /\ Caps.elide \/ led.rec[a][o] < led.valS[a][o]
   /\ LET g2 == LC("DropStored", a, o)
      IN Commit(heap, g2, DropObs([ObFor(top, "DropStored", a, o) EXCEPT !.ret = "unit"], g2, o),
                [ctl EXCEPT !.stack = <<Frame("drop", o)>> \o base])
@@ -344,6 +346,7 @@ CanName(a, b) == /\ Intact(a) /\ Intact(b) /\ ob.nd[a] = 0 /\ ob.nd[b] = 0
 
 OpAdopt(a, b, top, base) ==
   /\ CanName(a, b) /\ led.rec[a][b] < Caps.rec
+  /\ Caps.over \/ led.rec[a][b] < led.valS[a][b]
   /\ Done(AdoptHeap(heap, a, b), "Adopt", a, b, NoScript, "ok", top, base)
 
 OpUnadopt(a, b, top, base) ==
@@ -687,9 +690,10 @@ StepValueFields ==
          ts == {t \in Obj : led.valS[o][t] > 0}
          tw == {t \in Obj : led.valW[o][t] > 0}
      IN IF ts # {}
-        THEN LET t == MinOf(ts) IN
-             Commit(heap, [led EXCEPT !.valS[o][t] = @ - 1], ob,
-                    [ctl EXCEPT !.stack = <<Frame("drop", t)>> \o Stack])
+        THEN LET t  == MinOf(ts)
+                 g2 == [led EXCEPT !.valS[o][t] = @ - 1]
+             IN Commit(heap, g2, [ob EXCEPT !.must = @ \cup Demand(g2, ob, t)],
+                       [ctl EXCEPT !.stack = <<Frame("drop", t)>> \o Stack])
         ELSE IF tw # {}
         THEN LET t == MinOf(tw) IN
              CommitHX(WeakDropHeap(heap, ob, t), [led EXCEPT !.valW[o][t] = @ - 1], ctl)
